@@ -136,7 +136,20 @@ fn gen_malformed(rng: &mut Rng, startup: bool) -> Frame {
     let mut b = good.clone();
     let set_len = |b: &mut Vec<u8>, l: i32| b[off..off + 4].copy_from_slice(&l.to_be_bytes());
     let min = if startup { 8 } else { 4 };
-    let (kind, declared): (&str, Option<usize>) = match rng.below(9) {
+    let (kind, declared): (&str, Option<usize>) = match rng.below(10) {
+        9 if startup => {
+            // one of the protocol's reserved request codes (CancelRequest, SSLRequest, GSSENCRequest) in a
+            // packet of any declared length from the bare code up to a few bytes beyond its regular size
+            let code: i32 = *rng.pick(&[80877102, 80877103, 80877104]);
+            let l = 8 + rng.usize(17);
+            b = Vec::new();
+            b.extend_from_slice(&(l as i32).to_be_bytes());
+            b.extend_from_slice(&code.to_be_bytes());
+            while b.len() < l {
+                b.push(if rng.chance(1, 4) { 0 } else { rng.below(256) as u8 });
+            }
+            ("reserved_request_code", Some(l))
+        }
         0 => {
             set_len(&mut b, -1 - rng.range(0, 1000) as i32);
             ("negative_length", None)
